@@ -33,6 +33,7 @@ type chainSpec struct {
 	Root        string   // "root1" or "root2": the root the chain leads to
 	Full        [][]byte // the complete path, leaf first, root last
 	WellFormed  bool
+	NotAfter    time.Time
 }
 
 func pemOf(ders ...[]byte) []byte {
@@ -79,7 +80,7 @@ func (w *World) makeChainItem(k int, r *core.Rand) *Item {
 		sp.PreChainEP = !sp.Precert
 	}
 	o.Precert = sp.Precert
-	if r.Chance(1, 6) && !sp.Precert {
+	if (r.Chance(1, 6) || (p.Prop == "C17" && r.Chance(1, 2))) && !sp.Precert {
 		o.WithSCT = true // low priority
 	}
 	var path [][]byte
@@ -105,6 +106,7 @@ func (w *World) makeChainItem(k int, r *core.Rand) *Item {
 		path = [][]byte{c.PreIssuer.DER, c.Inter[0].DER, c.Root.DER}
 		sp.Root = "root1"
 	}
+	sp.NotAfter = o.NotAfter
 	leaf := c.Leaf(it.corpusIdx, o)
 	sp.Full = append([][]byte{leaf}, path...)
 	chain := append([][]byte{leaf}, path...)
@@ -193,7 +195,11 @@ func (w *World) expectAccept(in *Instance, it *Item) bool {
 		return false
 	}
 	switch sp.Defect {
-	case "missing-intermediate", "wrong-order", "na-before-start", "na-at-limit", "eku-client", "eku-none", "wrong-endpoint", "empty-chain", "extra-unrelated-cert":
+	case "missing-intermediate", "wrong-order", "eku-client", "eku-none", "wrong-endpoint", "empty-chain", "extra-unrelated-cert":
+		return false
+	}
+	// the shard window [start, limit), from the construction parameter
+	if sp.NotAfter.Before(w.prof.notAfterStart()) || !sp.NotAfter.Before(w.prof.notAfterLimit()) {
 		return false
 	}
 	return in.rootsMem[sp.Root]
@@ -328,6 +334,17 @@ func (o *oracle) checkChainOutcome(in *Instance, s *Submission) {
 	}
 	if !want {
 		o.rejectedKeys[it.Key] = it
+	}
+	// retry-later answers: a rate-limited or evicted submission is answered 503 with Retry-After (C17)
+	body := string(s.SCT)
+	if s.Code != 200 && (strings.Contains(body, "evicted") || strings.Contains(body, "rate limited")) && s.Code != 503 {
+		o.v("C17", "http-status", "sub %d: rate-limited/evicted submission answered %d %q instead of 503", s.ID, s.Code, clip(body))
+	}
+	if s.Code == 503 {
+		o.w.sim.Probe("http.503")
+		if s.retryAfter == "" {
+			o.v("C17", "http-retry-after", "sub %d: 503 without Retry-After", s.ID)
+		}
 	}
 	if s.Code >= 400 && s.Code < 500 {
 		// over HTTP the admission source is not visible: every started submission
